@@ -214,6 +214,17 @@ func Stateless() []Table {
 // All returns tables for all catalogued models.
 func All() []Table { return append(Stateful(), Stateless()...) }
 
+// Has reports whether /verif has a parameter / alphabet table for the model (a model added to the catalogue after these
+// tables were written has none: the enumerations are over the tabulated models and say so).
+func Has(model string) bool {
+	for _, t := range All() {
+		if t.Model == model {
+			return true
+		}
+	}
+	return false
+}
+
 // GetAny returns the table of any catalogued model.
 func GetAny(model string) Table {
 	for _, t := range All() {
